@@ -201,8 +201,11 @@ def programs_1d(draw, tier="quick"):
     wk = draw(st.sampled_from(["none", "int", "dyadic"]))
     if case["dtype"] == "int64" and wk == "dyadic":
         wk = "int"
-    val = st.one_of(st.sampled_from(gen.special_values(ps)), st.floats(ps[0][0], ps[-1][1], allow_nan=False))
-    wgt = {"none": st.none(), "int": st.one_of(st.none(), st.integers(0, 5)), "dyadic": st.one_of(st.none(), st.integers(0, 5), gen.dyadics(64, 3))}[wk]
+    span = ps[-1][1] - ps[0][0]
+    outside = st.sampled_from([ps[0][0] - span, ps[-1][1] + span, ps[0][0] - 0.5 * span, gen.nextafter(ps[0][0], False), gen.nextafter(ps[-1][1], True)])
+    val = st.one_of(st.sampled_from(gen.special_values(ps)), st.floats(ps[0][0], ps[-1][1], allow_nan=False), outside)
+    frac = st.builds(lambda k, m: (2 * k + 1) / (1 << m), st.integers(0, 20), st.integers(1, 3))  # never integral
+    wgt = {"none": st.none(), "int": st.one_of(st.none(), st.integers(0, 5)), "dyadic": st.one_of(st.none(), frac, frac, gen.dyadics(64, 3))}[wk]
     nan_ok = draw(st.booleans())
     chunk_val = st.one_of(val, st.just(float("nan"))) if nan_ok else val
 
